@@ -293,3 +293,26 @@ M("C08", "C08-COL", LH, "    trend_M = np.vander(dt, N=poly_trend, increasing=Tr
 M("C08", "C08-COL", PR, "        self.v0_offsets = v0_offsets\n", "        self.v0_offsets = sorted(v0_offsets, key=lambda p: p.name)\n", "offset priors sorted by name (seeded C08-A / C01-A)")
 M("C08", "C08-ORDER", DH, "    trend_M = get_trend_design_matrix(all_data, ids, poly_trend)\n\n    return all_data, ids, trend_M", "    ids = ids[np.argsort(np.concatenate(rv) if False else rv.value)]\n    trend_M = get_trend_design_matrix(all_data, ids, poly_trend)\n\n    return all_data, ids, trend_M", "ids re-sorted by the wrong key")
 T("C08", DH, "    ids = np.concatenate(ids)\n", "    ids = np.concatenate(ids)\n    ids = ids[np.argsort(t)]\n", "repaired tree: ids re-aligned with the time argsort (known finding disappears)")
+
+# ---------------------------------------------------------------- C05
+M("C05", "C05-CARRY", PYX, "        # Zero-out array:\n        for i in range(self.n_linear):\n            for j in range(self.n_linear):\n                self.Ainv[i, j] = 0.\n", "", "zero-fill of Ainv deleted")
+M("C05", "C05-CARRY", PYX, "            self.b[n] = 0.\n", "", "b[n] = 0 deleted")
+M("C05", "C05-CARRY", PYX, "            M0 = chunk[n, 3]\n\n            c_rv_from_elements(&self.t[0], &self.M_T[0, 0], self.n_times,\n                               P, 1., e, om, M0, self.t0,\n                               anomaly_tol, anomaly_maxiter)\n\n            # Note: jitter must be in same units as the data RV's / ivar\n            get_ivar(self.ivar, chunk[n, 4], self.s_ivar)\n\n            # TODO: this is a continuation of the massive hack introduced above.\n            if self.fixed_K_prior == 0:\n                self.Lambda[0] = (self.sigma_K0**2 / (1 - e**2)\n                                  * (P / self.P0)**(-2/3.))\n                self.Lambda[0] = min(self.max_K**2, self.Lambda[0])\n\n            # compute likelihood, but also generate a, Ainv",
+  "            M0 = chunk[n, 3]\n\n            # Note: jitter must be in same units as the data RV's / ivar\n            get_ivar(self.ivar, chunk[n, 4], self.s_ivar)\n\n            # TODO: this is a continuation of the massive hack introduced above.\n            if self.fixed_K_prior == 0:\n                self.Lambda[0] = (self.sigma_K0**2 / (1 - e**2)\n                                  * (P / self.P0)**(-2/3.))\n                self.Lambda[0] = min(self.max_K**2, self.Lambda[0])\n\n            # compute likelihood, but also generate a, Ainv", "Kepler column not recomputed on the posterior path")
+M("C05", "C05-CARRY", PYX, "            get_ivar(self.ivar, chunk[n, 4], self.s_ivar)\n\n            # TODO: this is a continuation of the massive hack introduced above.\n            if self.fixed_K_prior == 0:\n                self.Lambda[0] = (self.sigma_K0**2 / (1 - e**2)\n                                  * (P / self.P0)**(-2/3.))\n                self.Lambda[0] = min(self.max_K**2, self.Lambda[0])\n\n            # compute things needed for the ln(likelihood)",
+  "            if n == 0:\n                get_ivar(self.ivar, chunk[n, 4], self.s_ivar)\n\n            # TODO: this is a continuation of the massive hack introduced above.\n            if self.fixed_K_prior == 0:\n                self.Lambda[0] = (self.sigma_K0**2 / (1 - e**2)\n                                  * (P / self.P0)**(-2/3.))\n                self.Lambda[0] = min(self.max_K**2, self.Lambda[0])\n\n            # compute things needed for the ln(likelihood)", "jitter fold only for the first sample of a batch")
+M("C05", "C05-CARRY", PYX, "            _ll = self.likelihood_worker(1)  # the 1 is \"True\"\n", "            _ll = self.likelihood_worker(0)\n", "posterior path does not refresh a / Ainv (stale a from the last call)")
+M("C05", "C05-CARRY", PYX, "            for m in range(self.n_times):\n                self.Binv[n, m] = 0.\n", "            for m in range(self.n_times):\n                pass\n", "Binv not cleared before the Woodbury accumulation")
+M("C05", "C05-FRESH", PYX, "        return (CJokerHelper, (self.data, self.prior, np.array(self.trend_M)))", "        return (CJokerHelper, (self.prior, self.data, np.array(self.trend_M)))", "__reduce__ argument order swapped")
+M("C05", "C05-FRESH", PYX, "        self.prior = prior\n        self.data = data\n", "        self.prior = prior\n        self.data = data[:len(data)]\n", "__init__ stores a derived data object")
+M("C05", "C05-FRESH", UT, "def table_header_to_units(header_dataset):", "import functools\n\n\n@functools.lru_cache(maxsize=8)\ndef table_header_to_units(header_dataset):", "header units memoised")
+M("C05", "C05-FRESH", UT, "    return (mu * in_unit).to_value(out_unit), (std * in_unit).to_value(out_unit)\n", "    if not hasattr(dist, '_mean_std'):\n        dist._mean_std = ((mu * in_unit).to_value(out_unit), (std * in_unit).to_value(out_unit))\n    return dist._mean_std\n", "mean/std memoised on the pymc variable (seeded C07-B)")
+M("C05", "C05-FRESH", UT, "def read_batch_slice(prior_samples_file, columns, slice, units=None):", "_UNITS = {}\n\n\ndef read_batch_slice(prior_samples_file, columns, slice, units=None):\n    _UNITS[prior_samples_file] = units", "module-level dictionary written on a read path")
+M("C05", "C05-FEED", TJ, "                prior_samples, _ = prior_samples.pack(\n                    units=joker_helper.internal_units, names=joker_helper.packed_order\n                )\n            return marginal_ln_likelihood_inmem(joker_helper, prior_samples)", "                prior_samples, _ = prior_samples.pack(\n                    names=joker_helper.packed_order\n                )\n            return marginal_ln_likelihood_inmem(joker_helper, prior_samples)", "in-memory likelihood packs without the internal units")
+M("C05", "C05-FEED", MP, "        joker_helper.packed_order,\n        slice_or_idx,\n        units=joker_helper.internal_units,\n    )", "        joker_helper.packed_order,\n        slice_or_idx,\n    )", "file path reads without unit conversion")
+M("C05", "C05-FEED", MP, "        columns=joker_helper.packed_order,\n", "        columns=['P', 'e', 'M0', 'omega', 's'],\n", "literal column order differs from the packed order")
+M("C05", "C05-SEQ", LH, "    # get indices of samples that pass rejection step\n    uu = rng.uniform(size=len(lls))\n    good_samples_idx = np.where(np.exp(lls - lls.max()) > uu)[0]\n    good_samples_idx = good_samples_idx[:max_posterior_samples]\n", "    # get indices of samples that pass rejection step\n    _ = rng.random()\n    uu = rng.uniform(size=len(lls))\n    good_samples_idx = np.where(np.exp(lls - lls.max()) > uu)[0]\n    good_samples_idx = good_samples_idx[:max_posterior_samples]\n", "extra draw before the uniforms on the in-memory path only")
+M("C05", "C05-ORDER", MP, "    return np.concatenate(results)\n", "    return np.concatenate(sorted(results, key=len))\n", "results sorted by batch length")
+T("C05", PYX, "        # Zero-out array:\n        for i in range(self.n_linear):\n            for j in range(self.n_linear):\n                self.Ainv[i, j] = 0.\n", "        # Zero-out array:\n        for j in range(self.n_linear):\n            for i in range(self.n_linear):\n                self.Ainv[i, j] = 0.\n", "zero-fill loops interchanged")
+M("C05", "C05-ROWS", UT, "    batch = np.zeros((len(idx), len(columns)))\n    with tb.open_file(prior_samples_file, mode=\"r\") as f:\n        for i, name in enumerate(columns):\n            batch[:, i] = f.root[path].read_coordinates(idx, field=name)\n",
+  "    batch = np.zeros((len(idx), len(columns)))\n    order = np.argsort(idx)\n    with tb.open_file(prior_samples_file, mode=\"r\") as f:\n        for i, name in enumerate(columns):\n            arr = f.root[path].read_coordinates(idx[order], field=name)\n            batch[:, i] = arr[order]\n", "sorted read restored with the wrong permutation (seeded C05-A)")
